@@ -9,14 +9,15 @@ import Discv5Model.Proofs.KBucketLemmas
 namespace Discv5.KB
 
 variable {V : Type} [DecidableEq V]
+set_option linter.unusedSectionVars false
 
 /-- The empty table satisfies the invariant. -/
 theorem init_inv (c : Cfg V) (localKey : Nat) : TInv c (Table.init localKey : Table V) := by
-  sorry
+  exact init_tinv c localKey
 
 /-- Every table operation preserves the invariant (for every `now`, every argument). -/
 theorem step_inv (c : Cfg V) (t : Table V) (op : Op V) (h : TInv c t) : TInv c (t.step c op) := by
-  sorry
+  exact step_tinv c t op h
 
 /-- After any sequence of routing-table operations and any passage of time the invariant holds:
 no bucket holds more than 16 nodes; `first_connected_pos` is consistent; disconnected nodes
@@ -25,20 +26,20 @@ precede connected ones, each group ordered by last status report; no id twice pe
 its log2 distance. -/
 theorem reachable_inv (c : Cfg V) (localKey : Nat) (ops : List (Op V)) :
     TInv c (ops.foldl (Table.step c) (Table.init localKey)) := by
-  sorry
+  exact foldl_step_tinv c ops _ (init_tinv c localKey)
 
 /-- No node id occurs twice in the whole table (pending slots included) and the local id is
 never stored. -/
 theorem global_unique (c : Cfg V) (t : Table V) (h : TInv c t) :
     t.allKeys.Nodup ∧ t.localKey ∉ t.allKeys := by
-  sorry
+  exact tinv_global_unique h
 
 /-- The `unreachable!()` arms are unreachable: under the invariant no operation panics. -/
 theorem no_panic (c : Cfg V) (t : Table V) (h : TInv c t) (now key : Nat) (v : V) (st : Status)
     (s : Option Bool) (conn : Bool) (dir : Option Bool) :
     (t.insertOrUpdate c now key v st).2 ≠ .panic ∧ (t.updateNode c now key v s).2 ≠ .panic ∧
     (t.updateNodeStatus c now key conn dir).2 ≠ .panic := by
-  sorry
+  exact ⟨insertOrUpdate_ne_panic h, updateNode_ne_panic h, updateNodeStatus_ne_panic h⟩
 
 /-- Pending semantics, part 1: a pending node enters a full bucket only after its timeout, and
 only by evicting the first node of the bucket (the least-recently-active one), which is
@@ -51,13 +52,37 @@ theorem pending_enters_full_bucket (c : Cfg V) (tick now : Nat) (b : Bucket V) (
       (∀ n ∈ rest, n ∈ (b.applyPending c now tick).1.nodes) ∧
       (∃ n ∈ (b.applyPending c now tick).1.nodes, n.key = p.node.key) ∧
       n0.key ∉ (b.applyPending c now tick).1.nodes.map (·.key) := by
-  sorry
+  rcases applyPending_cases c now tick b with ⟨hr, _⟩ | ⟨p', _, _, hr⟩ |
+    ⟨p', n0, rest, hp', hrep, _, hnodes, h0, _, h2, _, hshape⟩ | ⟨p', _, _, hnf, _, _⟩
+  · rw [hr] at ha; cases ha
+  · rw [hr] at ha; cases ha
+  · rw [hp] at hp'
+    cases hp'
+    rw [h2] at ha
+    cases ha
+    have hperm := hshape.perm
+    have hfresh := hinv.pendingFresh p hp
+    have hnd := hinv.keysNodup
+    rw [hnodes] at hfresh hnd
+    simp only [List.map_cons, List.mem_cons, not_or, List.nodup_cons] at hfresh hnd
+    refine ⟨hrep, rfl, n0, rest, hnodes, h0, rfl, ?_, ?_, ?_⟩
+    · intro n hn
+      exact hperm.mem_iff.2 (List.mem_cons_of_mem _ hn)
+    · exact ⟨_, hperm.mem_iff.2 (List.mem_cons_self ..), rfl⟩
+    · rw [(hperm.map (·.key)).mem_iff]
+      simp only [List.map_cons, List.mem_cons, not_or]
+      exact ⟨fun e => hfresh.1 e.symm, hnd.1⟩
+  · have := isFull_false_iff.1 hnf
+    omega
 
 /-- Pending semantics, part 2: before the timeout nothing changes. -/
 theorem pending_waits (c : Cfg V) (tick now : Nat) (b : Bucket V) (p : Pending V)
     (hp : b.pending = some p) (hnot : now < p.replace) :
     b.applyPending c now tick = (b, none) := by
-  sorry
+  unfold Bucket.applyPending
+  rw [hp]
+  simp only
+  rw [if_neg (by omega)]
 
 /-- Pending semantics, part 3: the pending node is discarded if the least-recently-active node
 (position 0) reports a connection first. -/
@@ -65,6 +90,54 @@ theorem pending_discarded_on_reconnect (c : Cfg V) (tick now : Nat) (b : Bucket 
     (rest : List (Node V)) (dir : Option Bool) (hn : b.nodes = n0 :: rest)
     (hinv : BInv c tick b) :
     (b.updateStatus c now tick n0.key true dir).1.pending = none := by
-  sorry
+  exact updateStatus_head_pending hn hinv
+
+/-! ### Non-vacuity: concrete reachable data satisfying the hypotheses -/
+
+/-- limits 8 / 60, both filters accept everything -/
+def c07Cfg : Cfg Nat :=
+  { maxIncoming := 8, pendingTimeout := 60, bucketFilter := fun _ _ => true,
+    tableFilter := fun _ _ => true }
+
+/-- local id 0; sixteen disconnected nodes with ids 32 … 47 (all at log2 distance 5) fill bucket 5,
+then a connected incoming node with id 48 arrives at time 1 and becomes pending. -/
+def c07Ops : List (Op Nat) :=
+  (List.range 16).map (fun k => Op.insertOrUpdate 0 (32 + k) k ⟨false, false⟩) ++
+    [Op.insertOrUpdate 1 48 99 ⟨true, true⟩]
+
+def c07Table : Table Nat := c07Ops.foldl (Table.step c07Cfg) (Table.init 0)
+
+/-- The hypothesis of `global_unique` / `no_panic` holds for a table with 17 ids. -/
+example : TInv c07Cfg c07Table ∧ c07Table.allKeys.length = 17 :=
+  ⟨reachable_inv c07Cfg 0 c07Ops, by decide +kernel⟩
+
+/-- All hypotheses of `pending_enters_full_bucket` hold at time 100: id 48 replaces id 32. -/
+example : ∃ (p : Pending Nat) (a : Applied), BInv c07Cfg c07Table.tick (c07Table.bucket 5) ∧
+    (c07Table.bucket 5).pending = some p ∧ (c07Table.bucket 5).nodes.length = 16 ∧
+    ((c07Table.bucket 5).applyPending c07Cfg 100 c07Table.tick).2 = some a ∧
+    a = ⟨48, some 32⟩ := by
+  obtain ⟨p, hp⟩ := Option.isSome_iff_exists.1
+    (by decide +kernel : (c07Table.bucket 5).pending.isSome = true)
+  exact ⟨p, ⟨48, some 32⟩, (reachable_inv c07Cfg 0 c07Ops).buckets 5 (by decide), hp,
+    by decide +kernel, by decide +kernel, rfl⟩
+
+/-- The hypotheses of `pending_waits` hold at time 10 (the pending node may enter at 61). -/
+example : ∃ p, (c07Table.bucket 5).pending = some p ∧ 10 < p.replace := by
+  have h : (c07Table.bucket 5).pending.map (·.replace) = some 61 := by decide +kernel
+  cases hp : (c07Table.bucket 5).pending with
+  | none => rw [hp] at h; cases h
+  | some p =>
+    rw [hp] at h
+    simp only [Option.map_some, Option.some.injEq] at h
+    exact ⟨p, rfl, by omega⟩
+
+/-- The hypotheses of `pending_discarded_on_reconnect` hold with a pending node present. -/
+example : ∃ n0 rest, (c07Table.bucket 5).nodes = n0 :: rest ∧
+    BInv c07Cfg c07Table.tick (c07Table.bucket 5) ∧ (c07Table.bucket 5).pending.isSome = true := by
+  have hl : (c07Table.bucket 5).nodes.length = 16 := by decide +kernel
+  cases hn : (c07Table.bucket 5).nodes with
+  | nil => rw [hn] at hl; cases hl
+  | cons n0 rest =>
+    exact ⟨n0, rest, rfl, (reachable_inv c07Cfg 0 c07Ops).buckets 5 (by decide), by decide +kernel⟩
 
 end Discv5.KB
